@@ -14,6 +14,10 @@
    - the timers and the scheduler [env]: every timer may fire late by an
      arbitrary amount, and when the process exits at the very instant a timer
      fires the select may take either branch.
+   - whether the process leaves behind a descendant that still holds its
+     standard error [p_linger]: NewStream forwards a StderrPipe by hand instead
+     of setting Cmd.Stderr, so Wait has no copying goroutine to wait for and the
+     machine below does not look at this parameter at all (golang/go#23019);
    Assumed, not modelled (named in the theorems): os/exec.Cmd.Wait returns when
    the child has exited and been reaped; a process cannot ignore SIGKILL (the
    hypothesis [p_kill p <> None]). *)
@@ -25,7 +29,9 @@ Record proc := {
   p_self : option N;    (* exits on its own at this time *)
   p_stdin : option N;   (* exits this long after its standard input was closed *)
   p_term : option N;    (* exits this long after SIGTERM *)
-  p_kill : option N }.  (* exits this long after SIGKILL *)
+  p_kill : option N;    (* exits this long after SIGKILL *)
+  p_linger : bool }.    (* it leaves behind a descendant that inherited its standard
+                           error and outlives it (e.g. a backgrounded helper) *)
 
 Record env := {
   j0 : N; j1 : N; j2 : N;                 (* lateness of the three timers *)
@@ -47,6 +53,11 @@ Definition omin (a b : option N) : option N :=
 
 Definition oadd (t : option N) (a : option N) : option N :=
   match t, a with Some t', Some a' => Some (t' + a') | _, _ => None end.
+
+(* the same process with or without the lingering descendant *)
+Definition with_linger (b : bool) (p : proc) : proc :=
+  {| p_self := p_self p; p_stdin := p_stdin p; p_term := p_term p; p_kill := p_kill p;
+     p_linger := b |}.
 
 (* when the process exits, given when (if at all) each signal was sent *)
 Definition earliest_exit (p : proc) (stdin_at term_at kill_at : option N) : option N :=
@@ -140,7 +151,8 @@ Definition stage_eqb (a b : stage) : bool :=
 
 Definition slow (m : N) (p : proc) : proc :=
   {| p_self := option_map (N.add m) (p_self p); p_stdin := option_map (N.add m) (p_stdin p);
-     p_term := option_map (N.add m) (p_term p); p_kill := option_map (N.add m) (p_kill p) |}.
+     p_term := option_map (N.add m) (p_term p); p_kill := option_map (N.add m) (p_kill p);
+     p_linger := p_linger p |}.
 
 Definition late (m : N) : env :=
   {| j0 := m; j1 := m; j2 := m; tie0 := false; tie1 := false; tie2 := false |}.
